@@ -284,6 +284,10 @@ func BuildOps(r *fw.Rand, n int) []Op {
 			hints[gozxing.EncodeHintType_ERROR_CORRECTION] = []string{"L", "M", "Q", "H"}[r.Intn(4)]
 			scale := 1 + r.Intn(4)
 			pure := r.Bool()
+			damage := 0
+			if r.Intn(3) == 0 {
+				damage = 1 + r.Intn(2)
+			}
 			if len(content) > 1000 { // keep the race build fast: large symbols at 1-2 px/module, mostly pure
 				scale = 1 + r.Intn(2)
 				pure = r.Intn(4) != 0
@@ -304,6 +308,19 @@ func BuildOps(r *fw.Rand, n int) []Op {
 				out := matrixHash(bm2, err)
 				if err != nil {
 					return out
+				}
+				if damage > 0 && side >= 29*scale {
+					// one or two modules flipped in the middle of the symbol: the Reed-Solomon decoder
+					// has something to correct (clean symbols never reach its correction code)
+					dr := fw.NewRand(uint64(len(content))*977 + uint64(damage))
+					for k := 0; k < damage; k++ {
+						mx, my := 13+dr.Intn(side/scale-26), 13+dr.Intn(side/scale-26)
+						for dy := 0; dy < scale; dy++ {
+							for dx := 0; dx < scale; dx++ {
+								bm2.Flip(mx*scale+dx, my*scale+dy)
+							}
+						}
+					}
 				}
 				bmp, _ := gozxing.NewBinaryBitmapFromImage(bm2)
 				if multi {
@@ -340,6 +357,7 @@ func BuildOps(r *fw.Rand, n int) []Op {
 			text := string(rs)
 			scale := 2 + r.Intn(3)
 			pure := r.Bool()
+			dmDamage := r.Intn(3) == 0
 			ops = append(ops, Op{"dm", func() string {
 				w := datamatrix.NewDataMatrixWriter()
 				bm, err := w.Encode(text, gozxing.BarcodeFormat_DATA_MATRIX, 0, 0, nil)
@@ -354,6 +372,15 @@ func BuildOps(r *fw.Rand, n int) []Op {
 				out := matrixHash(bm2, err)
 				if err != nil {
 					return out
+				}
+				if dmDamage && bm.GetWidth() >= 12 && bm.GetHeight() >= 12 {
+					mx, my := 3+len(text)%(bm.GetWidth()-6), 3+(len(text)*7)%(bm.GetHeight()-6)
+					off := pad / 2
+					for dy := 0; dy < scale; dy++ {
+						for dx := 0; dx < scale; dx++ {
+							bm2.Flip(off+mx*scale+dx, off+my*scale+dy)
+						}
+					}
 				}
 				bmp, _ := gozxing.NewBinaryBitmapFromImage(bm2)
 				dh := map[gozxing.DecodeHintType]interface{}{}
